@@ -28,8 +28,11 @@ type TxStore struct {
 	mu  sync.Mutex
 	tb  txTables
 	snp *txTables // non-nil while a transaction is open
-	// TxErrors counts protocol errors (commit/rollback without begin, nested begin).
+	tok *int      // identity of the open transaction, carried by the context BeginTX returns
+	// TxErrors counts protocol errors (commit/rollback without begin or with a foreign context, nested begin).
 	TxErrors []string
+	// CtxErrors lists writes issued while a transaction was open with a context that does not carry it.
+	CtxErrors []string
 }
 
 type txCode struct {
@@ -134,6 +137,9 @@ func (s *TxStore) hydrate(r *fosite.Request) *fosite.Request {
 
 type txKey struct{}
 
+// The transaction travels in the context, as it does in every SQL-backed fosite store: BeginTX returns a context
+// that carries it, and Commit / Rollback act on the transaction found in *their* context. A Commit or Rollback with a
+// context that does not carry the open transaction fails and leaves it open.
 func (s *TxStore) BeginTX(ctx context.Context) (context.Context, error) {
 	s.mu.Lock()
 	defer s.mu.Unlock()
@@ -143,7 +149,21 @@ func (s *TxStore) BeginTX(ctx context.Context) (context.Context, error) {
 	}
 	c := s.tb.clone()
 	s.snp = &c
-	return context.WithValue(ctx, txKey{}, true), nil
+	s.tok = new(int)
+	return context.WithValue(ctx, txKey{}, s.tok), nil
+}
+
+func (s *TxStore) carries(ctx context.Context) bool {
+	t, _ := ctx.Value(txKey{}).(*int)
+	return t != nil && t == s.tok
+}
+
+// noteCtx records a write that is issued while a transaction is open but with a context that does not carry it
+// (a SQL store would run it on another connection, outside the transaction). Callers hold s.mu.
+func (s *TxStore) noteCtx(ctx context.Context, method string) {
+	if s.snp != nil && !s.carries(ctx) {
+		s.CtxErrors = append(s.CtxErrors, method+" issued outside the context of the open transaction")
+	}
 }
 
 func (s *TxStore) Commit(ctx context.Context) error {
@@ -153,7 +173,11 @@ func (s *TxStore) Commit(ctx context.Context) error {
 		s.TxErrors = append(s.TxErrors, "Commit without open transaction")
 		return errors.New("txstore: commit without transaction")
 	}
-	s.snp = nil
+	if !s.carries(ctx) {
+		s.TxErrors = append(s.TxErrors, "Commit with a context that does not carry the open transaction")
+		return errors.New("txstore: no transaction in context")
+	}
+	s.snp, s.tok = nil, nil
 	return nil
 }
 
@@ -164,8 +188,12 @@ func (s *TxStore) Rollback(ctx context.Context) error {
 		s.TxErrors = append(s.TxErrors, "Rollback without open transaction")
 		return errors.New("txstore: rollback without transaction")
 	}
+	if !s.carries(ctx) {
+		s.TxErrors = append(s.TxErrors, "Rollback with a context that does not carry the open transaction")
+		return errors.New("txstore: no transaction in context")
+	}
 	s.tb = *s.snp
-	s.snp = nil
+	s.snp, s.tok = nil, nil
 	return nil
 }
 
@@ -183,7 +211,7 @@ func (s *TxStore) Abort() {
 	defer s.mu.Unlock()
 	if s.snp != nil {
 		s.tb = *s.snp
-		s.snp = nil
+		s.snp, s.tok = nil, nil
 	}
 }
 
@@ -234,9 +262,10 @@ func (s *TxStore) ClientAssertionJWTValid(_ context.Context, jti string) error {
 	return nil
 }
 
-func (s *TxStore) SetClientAssertionJWT(_ context.Context, jti string, exp time.Time) error {
+func (s *TxStore) SetClientAssertionJWT(ctx context.Context, jti string, exp time.Time) error {
 	s.mu.Lock()
 	defer s.mu.Unlock()
+	s.noteCtx(ctx, "SetClientAssertionJWT")
 	for j, e := range s.tb.jti {
 		if e.Before(Now()) {
 			delete(s.tb.jti, j)
@@ -259,9 +288,10 @@ func (s *TxStore) MarkJWTUsedForTime(ctx context.Context, jti string, exp time.T
 
 // ---- authorization codes
 
-func (s *TxStore) CreateAuthorizeCodeSession(_ context.Context, code string, req fosite.Requester) error {
+func (s *TxStore) CreateAuthorizeCodeSession(ctx context.Context, code string, req fosite.Requester) error {
 	s.mu.Lock()
 	defer s.mu.Unlock()
+	s.noteCtx(ctx, "CreateAuthorizeCodeSession")
 	s.tb.codes[code] = txCode{active: true, req: CloneRequest(req)}
 	return nil
 }
@@ -279,9 +309,10 @@ func (s *TxStore) GetAuthorizeCodeSession(_ context.Context, code string, _ fosi
 	return s.hydrate(c.req), nil
 }
 
-func (s *TxStore) InvalidateAuthorizeCodeSession(_ context.Context, code string) error {
+func (s *TxStore) InvalidateAuthorizeCodeSession(ctx context.Context, code string) error {
 	s.mu.Lock()
 	defer s.mu.Unlock()
+	s.noteCtx(ctx, "InvalidateAuthorizeCodeSession")
 	c, ok := s.tb.codes[code]
 	if !ok {
 		return fosite.ErrNotFound
@@ -293,9 +324,10 @@ func (s *TxStore) InvalidateAuthorizeCodeSession(_ context.Context, code string)
 
 // ---- access tokens
 
-func (s *TxStore) CreateAccessTokenSession(_ context.Context, sig string, req fosite.Requester) error {
+func (s *TxStore) CreateAccessTokenSession(ctx context.Context, sig string, req fosite.Requester) error {
 	s.mu.Lock()
 	defer s.mu.Unlock()
+	s.noteCtx(ctx, "CreateAccessTokenSession")
 	s.tb.access[sig] = CloneRequest(req)
 	return nil
 }
@@ -310,16 +342,18 @@ func (s *TxStore) GetAccessTokenSession(_ context.Context, sig string, _ fosite.
 	return s.hydrate(r), nil
 }
 
-func (s *TxStore) DeleteAccessTokenSession(_ context.Context, sig string) error {
+func (s *TxStore) DeleteAccessTokenSession(ctx context.Context, sig string) error {
 	s.mu.Lock()
 	defer s.mu.Unlock()
+	s.noteCtx(ctx, "DeleteAccessTokenSession")
 	delete(s.tb.access, sig)
 	return nil
 }
 
-func (s *TxStore) RevokeAccessToken(_ context.Context, requestID string) error {
+func (s *TxStore) RevokeAccessToken(ctx context.Context, requestID string) error {
 	s.mu.Lock()
 	defer s.mu.Unlock()
+	s.noteCtx(ctx, "RevokeAccessToken")
 	for k, v := range s.tb.access {
 		if v.ID == requestID {
 			delete(s.tb.access, k)
@@ -330,9 +364,10 @@ func (s *TxStore) RevokeAccessToken(_ context.Context, requestID string) error {
 
 // ---- refresh tokens
 
-func (s *TxStore) CreateRefreshTokenSession(_ context.Context, sig, asig string, req fosite.Requester) error {
+func (s *TxStore) CreateRefreshTokenSession(ctx context.Context, sig, asig string, req fosite.Requester) error {
 	s.mu.Lock()
 	defer s.mu.Unlock()
+	s.noteCtx(ctx, "CreateRefreshTokenSession")
 	s.tb.refresh[sig] = txRefresh{active: true, asig: asig, req: CloneRequest(req)}
 	return nil
 }
@@ -350,16 +385,18 @@ func (s *TxStore) GetRefreshTokenSession(_ context.Context, sig string, _ fosite
 	return s.hydrate(r.req), nil
 }
 
-func (s *TxStore) DeleteRefreshTokenSession(_ context.Context, sig string) error {
+func (s *TxStore) DeleteRefreshTokenSession(ctx context.Context, sig string) error {
 	s.mu.Lock()
 	defer s.mu.Unlock()
+	s.noteCtx(ctx, "DeleteRefreshTokenSession")
 	delete(s.tb.refresh, sig)
 	return nil
 }
 
-func (s *TxStore) RevokeRefreshToken(_ context.Context, requestID string) error {
+func (s *TxStore) RevokeRefreshToken(ctx context.Context, requestID string) error {
 	s.mu.Lock()
 	defer s.mu.Unlock()
+	s.noteCtx(ctx, "RevokeRefreshToken")
 	for k, v := range s.tb.refresh {
 		if v.req.ID == requestID {
 			v.active = false
@@ -378,9 +415,10 @@ func (s *TxStore) RotateRefreshToken(ctx context.Context, requestID, _ string) e
 
 // ---- OpenID Connect sessions
 
-func (s *TxStore) CreateOpenIDConnectSession(_ context.Context, key string, req fosite.Requester) error {
+func (s *TxStore) CreateOpenIDConnectSession(ctx context.Context, key string, req fosite.Requester) error {
 	s.mu.Lock()
 	defer s.mu.Unlock()
+	s.noteCtx(ctx, "CreateOpenIDConnectSession")
 	s.tb.oidc[key] = CloneRequest(req)
 	return nil
 }
@@ -395,18 +433,20 @@ func (s *TxStore) GetOpenIDConnectSession(_ context.Context, key string, _ fosit
 	return s.hydrate(r), nil
 }
 
-func (s *TxStore) DeleteOpenIDConnectSession(_ context.Context, key string) error {
+func (s *TxStore) DeleteOpenIDConnectSession(ctx context.Context, key string) error {
 	s.mu.Lock()
 	defer s.mu.Unlock()
+	s.noteCtx(ctx, "DeleteOpenIDConnectSession")
 	delete(s.tb.oidc, key)
 	return nil
 }
 
 // ---- PKCE
 
-func (s *TxStore) CreatePKCERequestSession(_ context.Context, sig string, req fosite.Requester) error {
+func (s *TxStore) CreatePKCERequestSession(ctx context.Context, sig string, req fosite.Requester) error {
 	s.mu.Lock()
 	defer s.mu.Unlock()
+	s.noteCtx(ctx, "CreatePKCERequestSession")
 	s.tb.pkce[sig] = CloneRequest(req)
 	return nil
 }
@@ -421,18 +461,20 @@ func (s *TxStore) GetPKCERequestSession(_ context.Context, sig string, _ fosite.
 	return s.hydrate(r), nil
 }
 
-func (s *TxStore) DeletePKCERequestSession(_ context.Context, sig string) error {
+func (s *TxStore) DeletePKCERequestSession(ctx context.Context, sig string) error {
 	s.mu.Lock()
 	defer s.mu.Unlock()
+	s.noteCtx(ctx, "DeletePKCERequestSession")
 	delete(s.tb.pkce, sig)
 	return nil
 }
 
 // ---- device authorization
 
-func (s *TxStore) CreateDeviceAuthSession(_ context.Context, dsig, usig string, req fosite.DeviceRequester) error {
+func (s *TxStore) CreateDeviceAuthSession(ctx context.Context, dsig, usig string, req fosite.DeviceRequester) error {
 	s.mu.Lock()
 	defer s.mu.Unlock()
+	s.noteCtx(ctx, "CreateDeviceAuthSession")
 	if _, ok := s.tb.user[usig]; ok {
 		return fosite.ErrExistingUserCodeSignature
 	}
@@ -455,9 +497,10 @@ func (s *TxStore) GetDeviceCodeSession(_ context.Context, sig string, _ fosite.S
 	return out, nil
 }
 
-func (s *TxStore) InvalidateDeviceCodeSession(_ context.Context, sig string) error {
+func (s *TxStore) InvalidateDeviceCodeSession(ctx context.Context, sig string) error {
 	s.mu.Lock()
 	defer s.mu.Unlock()
+	s.noteCtx(ctx, "InvalidateDeviceCodeSession")
 	d, ok := s.tb.device[sig]
 	if !ok {
 		return fosite.ErrNotFound
@@ -487,9 +530,10 @@ func (s *TxStore) UserDecision(usig string, mutate func(d *fosite.DeviceRequest)
 
 // ---- PAR
 
-func (s *TxStore) CreatePARSession(_ context.Context, uri string, req fosite.AuthorizeRequester) error {
+func (s *TxStore) CreatePARSession(ctx context.Context, uri string, req fosite.AuthorizeRequester) error {
 	s.mu.Lock()
 	defer s.mu.Unlock()
+	s.noteCtx(ctx, "CreatePARSession")
 	s.tb.par[uri] = cloneAuthorize(req)
 	return nil
 }
@@ -506,9 +550,10 @@ func (s *TxStore) GetPARSession(_ context.Context, uri string) (fosite.Authorize
 	return n, nil
 }
 
-func (s *TxStore) DeletePARSession(_ context.Context, uri string) error {
+func (s *TxStore) DeletePARSession(ctx context.Context, uri string) error {
 	s.mu.Lock()
 	defer s.mu.Unlock()
+	s.noteCtx(ctx, "DeletePARSession")
 	delete(s.tb.par, uri)
 	return nil
 }
